@@ -1,11 +1,11 @@
 #!/bin/bash
-# usage: benignauto.sh <mode> [--tests]   — mechanical behaviour-preserving rewrite of a scratch copy; every check must stay silent
+# usage: [SRC_REPO=<clean worktree>] benignauto.sh <mode> [--tests]   — mechanical behaviour-preserving rewrite of a scratch copy; every check must stay silent
 set -u
 export GOFLAGS=-mod=mod GOPROXY=off GOSUMDB=off GOTOOLCHAIN=local GOWORK=off
 mode="$1"
 tmp=$(mktemp -d /tmp/benign-XXXX)
 trap 'rm -rf "$tmp"' EXIT
-rsync -a --exclude .git /repo/ "$tmp/repo/"
+rsync -a --exclude .git "${SRC_REPO:-/repo}/" "$tmp/repo/"
 /verif/bin/benign -dir "$tmp/repo" -mode "$mode" || exit 2
 ( cd "$tmp/repo" && go build ./... ) || { echo "DOES NOT BUILD"; exit 2; }
 if [ "${2:-}" = "--tests" ]; then ( cd "$tmp/repo" && go test -vet=off -count=1 ./... 2>&1 | tail -8 ); fi
